@@ -124,6 +124,17 @@ int main(void)
 			printf("RES %d DUMP ", rc);
 			dump(tree.root);
 			printf("\n");
+		} else if (!strcmp(op, "reins")) {
+			/* the node object that is already linked in the tree is passed to insert again: its key is present, so the call must
+			 * fail and change nothing (in particular not the object's own links) */
+			long k = atol(strtok(NULL, " \n"));
+			struct n *nn = *slot(k);
+			int rc;
+			if (nn == NULL) { printf("bad-op\n"); exit(3); }
+			rc = iv_avl_tree_insert(&tree, &nn->an);
+			printf("RES %d DUMP ", rc);
+			dump(tree.root);
+			printf("\n");
 		} else if (!strcmp(op, "del")) {
 			long k = atol(strtok(NULL, " \n"));
 			struct n *nn = *slot(k);
